@@ -31,7 +31,7 @@ import (
 //     elapsed at (R, T).
 
 type toOp struct {
-	K   string `json:"k"`             // send recv erecv timeout chase update block time
+	K   string `json:"k"`             // send recv erecv v2edge timeout chase update block time
 	L   int    `json:"l,omitempty"`   // link
 	D   int    `json:"d,omitempty"`   // direction / side / chain
 	P   int    `json:"p,omitempty"`   // packet
@@ -359,6 +359,95 @@ func runC04(outer *testing.T) func(t rapid.TB, c toCase, rec *vx.Case) {
 				if nearTimeout(tw, p, R) {
 					rec.Class("recv-accepted-near-boundary")
 				}
+			case "v2edge":
+				// nanosecond edge for v2 / v2-alias packets (timeouts are whole seconds, consensus times are
+				// nanoseconds): place a destination block at header time timeoutSeconds*1e9 -/+ d ns, either
+				// carrying the receive itself (stale valid proof) or empty, update the source's client to exactly
+				// that header and submit the timeout proven at that height (whose state is the one before that block).
+				var live []*sim.Pkt
+				for _, q := range w.Pkts {
+					if q.V2 && w.HasCommitment(q) && len(pktsim.CommittedSteps(w, "recv")[pktsim.DstKey(w, q)]) == 0 {
+						live = append(live, q)
+					}
+				}
+				var p *sim.Pkt
+				if len(live) > 0 {
+					p = live[len(live)-1-pick(len(live), op.P)]
+				}
+				if p == nil || int64(p.P2.TimeoutTimestamp)*1_000_000_000-w.Coord.CurrentTime.UnixNano() < int64(12*time.Second) {
+					// nothing usable in flight: send a fresh v2 packet 30 s ahead on a v2 / alias link
+					var v2links []*sim.Link
+					for _, x := range w.Links {
+						if x.IsV2() {
+							v2links = append(v2links, x)
+						}
+					}
+					if len(v2links) == 0 {
+						continue
+					}
+					np, _ := w.SendV2(v2links[pick(len(v2links), op.L)], pick(2, op.D), op.Sig, uint64(w.Coord.CurrentTime.Unix()+30), sim.MockPayload("A", sim.Script{N: i, Out: "ok"}))
+					if np == nil {
+						rec.Add("v2edge_send_failed", 1)
+						continue
+					}
+					rec.Add("sends_ok", 1)
+					p = np
+				}
+				pl := w.Links[p.Link]
+				sc, dc := w.SrcChain(p), w.DstChain(p)
+				d := []int64{1, 2, 50, 100, 119, 120, 500, 1_000_000}[pick(8, op.N)]
+				if op.HD <= 0 {
+					d = -d
+				}
+				tgt := int64(p.P2.TimeoutTimestamp)*1_000_000_000 + d
+				withRecv := pick(2, op.HM) == 0
+				var rh uint64
+				if withRecv {
+					for _, x := range w.StoredHeights(pl, 1-p.Dir) {
+						if int64(x) > p.SrcHeight {
+							rh = x
+						}
+					}
+					if rh == 0 && tgt-w.Coord.CurrentTime.UnixNano() > int64(11*time.Second) {
+						rh = w.FreshHeight(pl, 1-p.Dir, op.Sig)
+					}
+					if rh == 0 {
+						withRecv = false
+					}
+				}
+				if gap := tgt - w.Coord.CurrentTime.UnixNano(); gap <= 0 {
+					rec.Add("v2edge_too_late", 1)
+					continue
+				} else {
+					w.AdvanceTime(time.Duration(gap))
+				}
+				var hx uint64
+				if withRecv {
+					triedRecv[p.Idx] = true
+					logStart := len(w.Log)
+					res := w.Deliver(dc, op.Sig, w.BuildRecv(p, rh, op.Sig))
+					hx = uint64(res.Height)
+					if committedCallback(w, logStart, "recv", pktsim.DstKey(w, p)) {
+						rec.Add("recvs_accepted", 1)
+						rec.Class("v2edge-recv-accepted%+d", sign(d))
+						if e, ok := tw.elapsedAtHeight(p, hx); ok && e {
+							bt, _ := tw.ck[dc].At(hx)
+							vx.Violatef(t, rec, id, "recv-after-timeout-"+pl.Kind.String(), "step %d: %s executed on chain %d in block %d (header time %d ns) although its timeout (%d s) had elapsed there", i, p, dc, hx, bt, p.P2.TimeoutTimestamp)
+						}
+					} else {
+						rec.Add("recvs_rejected_or_noop", 1)
+					}
+				} else {
+					w.Block(dc, 1)
+					hx = uint64(w.Height(dc))
+				}
+				if bt, ok := tw.ck[dc].At(hx); !ok || bt != tgt {
+					vx.Harnessf("v2edge: block %d of chain %d has header time %d, wanted %d", hx, dc, bt, tgt)
+				}
+				w.UpdateClientNoCommit(sc, pl.Client(p.Dir), dc, op.Sig)
+				boundary++
+				rec.Class("v2edge-timeout-at-T%+dns", d)
+				attempt(i, op, p, hx, "v2edge")
 			case "timeout", "chase":
 				if len(w.Pkts) == 0 {
 					continue
@@ -445,7 +534,7 @@ func genC04(t *rapid.T) toCase {
 	n := rapid.IntRange(5, 30).Draw(t, "nops")
 	sends := 0
 	for i := 0; i < n; i++ {
-		k := rapid.SampledFrom([]string{"recv", "recv", "erecv", "erecv", "chase", "chase", "timeout", "timeout", "timeout", "send", "send", "send", "send", "update", "block", "block", "time", "update"}).Draw(t, "kind")
+		k := rapid.SampledFrom([]string{"recv", "recv", "erecv", "erecv", "v2edge", "v2edge", "chase", "chase", "timeout", "timeout", "timeout", "send", "send", "send", "send", "update", "block", "block", "time", "update"}).Draw(t, "kind")
 		if sends == 0 {
 			k = "send"
 		}
@@ -489,6 +578,13 @@ func genC04(t *rapid.T) toCase {
 			if k == "chase" {
 				op.N = rapid.IntRange(0, 5).Draw(t, "attempts")
 			}
+		case "v2edge":
+			op.P = rapid.IntRange(0, 2).Draw(t, "livepkt")
+			op.L = rapid.IntRange(0, 3).Draw(t, "v2link")
+			op.D = rapid.IntRange(0, 1).Draw(t, "dir")
+			op.N = rapid.IntRange(0, 7).Draw(t, "dns")
+			op.HD = rapid.SampledFrom([]int{-1, -1, 1}).Draw(t, "sign")
+			op.HM = rapid.IntRange(0, 1).Draw(t, "withrecv")
 		case "update":
 			op.L = rapid.IntRange(0, len(c.Links)-1).Draw(t, "link")
 			op.D = rapid.IntRange(0, 1).Draw(t, "side")
@@ -506,7 +602,7 @@ func genC04(t *rapid.T) toCase {
 func TestC04(t *testing.T) {
 	vx.Check(t, vx.Prop[toCase]{
 		ID:        "C04",
-		Rule:      "two chains with v1-unordered, v1-ordered, v2 and v2-alias links; histories of send (timeout height = dest height + {0..8}, timeout time = now + k*5 s +-1 ns or + 1..60 s, v2 in whole seconds 1..60 s ahead), recv and timeout with proof heights {fresh, any stored consensus height, the stored heights around the first elapsed one}, chase = poll with fresh heights block by block until accepted, erecv = receive with a stale valid proof in the destination block just before / at / after the timeout boundary, client updates, blocks, sub-second clock steps; non-trivial = a timeout whose proof height is the first elapsed / last unelapsed destination height, a receive attempted in the first elapsed / last open destination block, or a recv/timeout race on one packet; distinct by full history",
+		Rule:      "two chains with v1-unordered, v1-ordered, v2 and v2-alias links; histories of send (timeout height = dest height + {0..8}, timeout time = now + k*5 s +-1 ns or + 1..60 s, v2 in whole seconds 1..60 s ahead), recv and timeout with proof heights {fresh, any stored consensus height, the stored heights around the first elapsed one}, chase = poll with fresh heights block by block until accepted, v2edge = for v2 / v2-alias packets a destination block (carrying the receive or empty) at header time timeoutSeconds*1e9 -/+ {1,2,50,100,119,120,500,1e6} ns, source client updated to exactly that header, timeout proven at that height, erecv = receive with a stale valid proof in the destination block just before / at / after the timeout boundary, client updates, blocks, sub-second clock steps; non-trivial = a timeout whose proof height is the first elapsed / last unelapsed destination height, a receive attempted in the first elapsed / last open destination block, or a recv/timeout race on one packet; distinct by full history",
 		MinNTFrac: 0.5,
 		Gen:       genC04,
 		Run:       runC04(t),
@@ -514,3 +610,10 @@ func TestC04(t *testing.T) {
 }
 
 var _ = channeltypesv2.MaxTimeoutDelta
+
+func sign(d int64) int {
+	if d < 0 {
+		return -1
+	}
+	return 1
+}
